@@ -509,10 +509,40 @@ func runC03(r *Rand, tier string, o *Out) {
 		t := genCodecSig(r, 1+r.Intn(4), false)
 		c03Case(r, o, t)
 	}
+	// long strings and long lists, around 64 KiB and its multiples, inside typed data
+	long := 6
+	if tier == "thorough" {
+		long = 40
+	}
+	for i := 0; i < long; i++ {
+		size := r.Pick(65535, 65536, 65537, 70000, 131073)
+		str := make([]byte, size)
+		for j := range str {
+			str[j] = byte('a' + (j*5+i)%26)
+		}
+		num := func(n uint64) *tval { return &tval{kind: 'n', n: n} }
+		switch i % 4 {
+		case 0:
+			c03CaseV(r, o, parseSigT("(sI)"), &tval{kind: '(', elems: []*tval{{kind: 's', s: str}, num(7)}})
+		case 1:
+			// the reflection decoder takes lists of up to listValueMaxSize (4096) elements: at the bound and just below
+			l := &tval{kind: '['}
+			for j := 0; j < 4095+i%2; j++ {
+				l.elems = append(l.elems, num(uint64((j*3+i)%251)))
+			}
+			c03CaseV(r, o, parseSigT("([C]w)"), &tval{kind: '(', elems: []*tval{l, num(515)}})
+		case 2:
+			c03CaseV(r, o, parseSigT("{Is}"), &tval{kind: '{', elems: []*tval{num(1), {kind: 's', s: str[:size/2]}, num(2), {kind: 's', s: str}}})
+		default:
+			c03CaseV(r, o, parseSigT("[s]"), &tval{kind: '[', elems: []*tval{{kind: 's', s: []byte("x")}, {kind: 's', s: str}, {kind: 's', s: []byte("y")}}})
+		}
+		o.Count("case:long")
+	}
 }
 
-func c03Case(r *Rand, o *Out, t *sigT) {
-	v := genTVal(r, t, 2)
+func c03Case(r *Rand, o *Out, t *sigT) { c03CaseV(r, o, t, genTVal(r, t, 2)) }
+
+func c03CaseV(r *Rand, o *Out, t *sigT, v *tval) {
 	sig := t.String()
 	enc := encD(t, v)
 	o.Count("shape:" + sigShape(t))
